@@ -8,7 +8,7 @@ from ..runner import Part
 PROPERTY = 'C13'
 LEVEL = 'model_checking'
 RULE = ('every sequence of <=k symbols over {connect-ok, connect-fail x {no keys, non-token challenge, silent device, transport connect error, device that answers the public key with another challenge}, close, shell, exec_out, '
-        'root, reboot, streaming_shell, list, stat, pull->path, pull->BytesIO, push, and list/stat/pull/push with an empty path} on one object, both twins, executed on '
+        'root, reboot, streaming_shell, creating a streaming_shell generator, draining a generator created earlier, list, stat, pull->existing path, pull->fresh path, pull->BytesIO, push, and list/stat/pull/push with an empty path} on one object, both twins, executed on '
         'the real device class; reference = the availability machine (True after connect-ok, False after close / any connect attempt that fails); oracle: operation '
         'while unavailable raises AdbConnectionError, empty path raises DevicePathInvalidError, in both cases zero bytes written to the transport and no local file '
         'created; `available` equals the machine flag after every step; operations while available return the model\'s ground truth. States = (machine flag, transport '
@@ -25,9 +25,10 @@ CONNECTS = {
 }
 FAIL_EXC = {'fail-nokeys': 'DeviceAuthError', 'fail-nontoken': 'InvalidResponseError', 'fail-silent': ('AdbTimeoutError', 'TcpTimeoutException'),
             'fail-transport': 'ConnectionRefusedError', 'fail-rechallenge': ('AdbTimeoutError', 'TcpTimeoutException')}
-OPS = ['shell', 'exec_out', 'root', 'reboot', 'streaming_shell', 'list', 'stat', 'pull', 'pull-path', 'push']
+OPS = ['shell', 'exec_out', 'root', 'reboot', 'streaming_shell', 'list', 'stat', 'pull', 'pull-path', 'pull-newpath', 'push', 'stream-drain']
+NEUTRAL = ['stream-create']
 EMPTY = ['list-empty', 'stat-empty', 'pull-empty', 'push-empty']
-ALPHABET = list(CONNECTS) + ['close'] + OPS + EMPTY
+ALPHABET = list(CONNECTS) + ['close'] + OPS + EMPTY + NEUTRAL
 
 
 def op_for(sym, i):
@@ -37,6 +38,10 @@ def op_for(sym, i):
         return ('reboot',)
     if sym == 'pull-path':
         return ('pull', '/f', 'path')
+    if sym == 'pull-newpath':
+        return ('pull', '/f', 'newpath')
+    if sym == 'stream-drain':
+        return ('gen-drain',)
     e = ['', b'', None][i % 3]
     return {'list-empty': ('list', e), 'stat-empty': ('stat', e), 'pull-empty': ('pull', e, 'path'),
             'push-empty': ('push', ('bytes', b'zz'), e)}[sym]
@@ -70,6 +75,12 @@ def run_seq(params, ch):
                 flag = False
                 if r != ('ok', None):
                     viol.append({'msg': 'step %d close gave %r' % (i, r)})
+            elif sym == 'stream-create':
+                r = s.op(('gen-create', 'c', {'decode': False}))
+                if env.host_bytes != hb or env.write_calls != wc:
+                    viol.append({'msg': 'step %d creating a streaming_shell generator wrote to the transport' % i})
+            elif sym == 'stream-drain' and getattr(s, 'lazy', None) is None:
+                r = ('ok', 'no-generator')
             else:
                 guarded = True
                 r = s.op(op_for(sym, i))
@@ -87,11 +98,17 @@ def run_seq(params, ch):
                         viol.append({'msg': 'step %d %s on an unavailable device wrote %d bytes to the transport' % (i, sym, env.host_bytes - hb)})
                     if created:
                         viol.append({'msg': 'step %d %s on an unavailable device created a local file' % (i, sym)})
+                    if sym == 'pull-newpath' and s.pull_file_state != 'absent':
+                        viol.append({'msg': 'step %d pull on an unavailable device created the local destination file' % i})
+                    if sym == 'pull-path' and s.pull_file_state != 'stale':
+                        viol.append({'msg': 'step %d pull on an unavailable device touched the existing local destination file (%s)' % (i, s.pull_file_state)})
                 else:
                     if sym == 'reboot':
                         want = ('ok', None)
-                    elif sym == 'pull-path':
+                    elif sym in ('pull-path', 'pull-newpath'):
                         want = ('ok', scen.FILE_F)
+                    elif sym == 'stream-drain':
+                        want = scen.op_expected('streaming_shell', cfg)
                     else:
                         want = scen.op_expected(sym, cfg)
                     if r != want:
@@ -125,7 +142,7 @@ def parts(tier):
     k = 3 if tier == 'quick' else 4
     sc = [{'seq': list(q), 'twin': t} for q in seqs(ALPHABET, k) for t in ('sync', 'async')]
     out = [Part('sequences', sc, run_seq, what='all symbol sequences of length <=%d over the %d-symbol alphabet' % (k, len(ALPHABET)), bound='length <= %d' % k)]
-    small = ['connect-ok', 'fail-nokeys', 'fail-silent', 'close', 'shell', 'pull-path', 'push', 'list-empty']
+    small = ['connect-ok', 'fail-nokeys', 'close', 'shell', 'pull-newpath', 'push', 'stream-create', 'stream-drain']
     d = 5 if tier == 'quick' else 6
     sc = [{'seq': list(q), 'twin': t} for q in seqs(small, d) if len(q) == d for t in ('sync', 'async')]
     out.append(Part('deep-sequences', sc, run_seq, what='all sequences of length exactly %d over a reduced 8-symbol alphabet' % d, bound='length %d, 8 symbols' % d))
